@@ -132,7 +132,11 @@ fn test(c: &Case) -> TestResult {
     }
     d.consume_output(usize::MAX)?;
     let replies = wire::decode_replies(&d.out_log).map_err(|e| Fail::new("c04-output-malformed", format!("stream parser output: {e}")))?;
-    model::match_replies(&sm.replies, &replies).map_err(|e| Fail::new("c04-replies", format!("stream parser: {e}")))?;
+    // every record the stream parser has taken in must have been answered; a parser that stops
+    // taking input once no stream is selected leaves the rest (and its replies) to the next
+    // request parser
+    let consumed = c02::consumed_records(&d, &b.body_recs, b.pre_end);
+    model::match_replies_upto(&sm.replies, &replies, consumed).map_err(|e| Fail::new("c04-replies", format!("stream parser: {e}")))?;
 
     let total = model::mandatory(&pm.replies) + model::mandatory(&sm.replies);
     let gv_bodies = b.pre_recs.iter().chain(b.body_recs.iter()).filter(|r| r.ty == T_GETVALUES && r.id == 0 && r.payload.len() >= 2).count();
